@@ -9,6 +9,7 @@ See DESIGN.md §2.
 import ast
 import z3
 
+from .types import PATH
 from .types import (Ty, INT, BOOL, STR, ANY, NONE, OptT, TupT, SeqT, SetT, DictT, ObjT, POS,
                     sort_of, opt_none, opt_some, opt_is_none, opt_val, tup_mk, tup_get, Ref)
 from .values import simp
@@ -264,8 +265,11 @@ class Verifier:
                 if attr in fam.methods:
                     return MFn('bound', attr, self_val=obj, spec=fam.methods[attr])
                 raise Unsupported('family %s has no attribute %s' % (fam.name, attr))
-            if isinstance(obj.t, TupT) and obj.t == POS and attr in ('line', 'column'):
-                raise Unsupported('pos attr')
+            if obj.t == PATH:
+                from . import paths
+                r = paths.path_attr(self, st, obj, attr, node)
+                if r is not None:
+                    return r
             return MFn('method', attr, self_val=obj)
         if isinstance(obj, (MList, MTup)):
             return MFn('method', attr, self_val=obj)
@@ -582,6 +586,10 @@ class Verifier:
             if not b.items:
                 return z3.BoolVal(False)
             return z3.Or(*[py_eq(a, i) for i in b.items])
+        from . import paths
+        if isinstance(b, paths.MPathParents):
+            return paths.is_proper_ancestor(pack(a, PATH), b.p.z) if isinstance(a, SV) and a.t == PATH \
+                else z3.BoolVal(False)
         if isinstance(b, SV):
             if isinstance(b.t, OptT):
                 self.may_raise(st, z3.Not(opt_is_none(b.t, b.z)), 'TypeError', '`in` on None', node)
@@ -651,6 +659,11 @@ class Verifier:
                 self.may_raise(st, b.z != 0, 'ZeroDivisionError', 'modulo by zero', node)
                 return SV(INT, a.z - b.z * py_floordiv(a.z, b.z))
             raise Unsupported('% operands')
+        if isinstance(op, ast.Div):
+            if ta == PATH:
+                from . import paths
+                return paths.join(a, b)
+            raise Unsupported('/ operands')
         if isinstance(op, ast.BitOr):
             if ta == BOOL and tb == BOOL:
                 return SV(BOOL, z3.Or(a.z, b.z))
